@@ -499,7 +499,7 @@ func runC08(tb ev.TB, p c08Prog) ev.Result {
 
 func TestC08(t *testing.T) {
 	c := ev.Get("C08")
-	c.Rule = "rapid generates entries (binary payloads incl. invalid UTF-8 and 300-byte runs, 0-7 predecessors and 0-7 references from a CID pool incl. CIDv0/raw links, default or custom clock ids up to 70 bytes, times incl. every CBOR integer-width boundary up to 2^62 and below zero down to -2^62, 6 writer identities and - in a third of the cases - a generated identity record: any id text such as mixed-case hex or addresses, names, unicode; any provider type; any signature bytes; the key stays the writer's, default or link-key codec) and manifests (1-8 heads in generated order). Oracles (re-encoding goes through ToMultihashWithIO, Entry.ToMultihash and the codec's own Write, for the decoded and the created entry): stored bytes == the harness's own canonical DAG-CBOR reference encoder and CID == sha2-256 CID of those bytes; read-back equals the written entry field by field; default codec: re-encoding the decoded entry gives the same CID; the same logical value built again from fresh structs in another store gives the same bytes; the run's (case, CID) digest is compared between two processes with the same seed by the driver. Non-trivial = payload has a non-ASCII byte, or >= 2 links, or time > 2^32; distinct = distinct program. Pinned interop vectors are checked by TestC08Vectors in the same run. Link-key cases: in half of them the key comes from a buffer the caller wipes after building the codec or after the write; a separately built same-key codec must read the entry back identically."
+	c.Rule = "rapid generates entries (binary payloads incl. invalid UTF-8 and 300-byte runs, 0-7 predecessors and 0-7 references from a CID pool incl. CIDv0/raw links, default or custom clock ids up to 70 bytes, times incl. every CBOR integer-width boundary up to 2^62 and below zero down to -2^62, 6 writer identities and - in a third of the cases - a generated identity record: any id text such as mixed-case hex or addresses, names, unicode; any provider type; any signature bytes; the key stays the writer's, default or link-key codec) and manifests (1-8 heads in generated order). Oracles (re-encoding goes through ToMultihashWithIO, Entry.ToMultihash and the codec's own Write, for the decoded and the created entry): stored bytes == the harness's own canonical DAG-CBOR reference encoder and CID == sha2-256 CID of those bytes; read-back equals the written entry field by field; default codec: re-encoding the decoded entry gives the same CID; the same logical value built again from fresh structs in another store gives the same bytes; the run's (case, CID) digest is compared between two processes with the same seed by the driver. Non-trivial = payload has a non-ASCII byte, or >= 2 links, or time > 2^32; distinct = distinct program. Pinned interop vectors are checked by TestC08Vectors in the same run. Link-key cases: in half of them the key comes from a buffer the caller wipes after building the codec or after the write; a separately built same-key codec must read the entry back identically. A fifth of the entries name one of their predecessors among their references too."
 	c.Assumptions = []string{"nil and empty link lists are the same logical value", "the legacy codec is only claimed for decoding v0 blocks (TestC08Vectors)", "'any process' is sampled as two processes with the same seed"}
 	ev.Check(t, "C08", genC08, runC08)
 }
